@@ -32,7 +32,7 @@ func isIndexField(st reflect.Type, f reflect.StructField) bool {
 		return false
 	}
 	switch f.Name {
-	case "CreateIndex", "ModifyIndex":
+	case "CreateIndex", "ModifyIndex", "PolicyIndex":
 		return true
 	case "Index":
 		// Tombstone.Index, IndexedXXX.Index; LockIndex is a different name (a counter).
@@ -118,7 +118,7 @@ func (w *walker) walk(v reflect.Value, depth int) {
 				continue
 			}
 			fv := v.Field(i)
-			if isZero(fv) {
+			if isZero(fv) && !(w.o.MaskIndexes && isIndexField(t, f)) {
 				continue
 			}
 			if !first {
@@ -130,6 +130,15 @@ func (w *walker) walk(v reflect.Value, depth int) {
 			if isIndexField(t, f) {
 				w.idx(fv.Uint())
 				continue
+			}
+			// resource versions are the raft index of the write, rendered as a decimal string
+			if f.Name == "Version" && t.Name() == "Resource" && fv.Kind() == reflect.String {
+				if n, err := strconv.ParseUint(fv.String(), 10, 64); err == nil {
+					w.sb.WriteByte('"')
+					w.idx(n)
+					w.sb.WriteByte('"')
+					continue
+				}
 			}
 			w.walk(fv, depth+1)
 		}
